@@ -160,6 +160,215 @@ func vData(stream, d []byte) string {
 	return "(DH " + cHex(d) + ")"
 }
 
+// ---- scripted matchers evaluated through the real MatcherSet.Match / MatchNot.Match ----
+type vSMOp struct {
+	peek bool
+	n    int
+}
+
+// vSM performs its scripted reads / peeks, stops at the first error (as io.ReadFull-based
+// matchers do) and otherwise answers its scripted verdict. It records what it saw.
+type vSM struct {
+	ops      []vSMOp
+	verdict  bool
+	seq      *vC01Seq
+	ran      bool
+	exec     []string // executed ops as Coq terms (model/Conn.v mop)
+	obs      []string // observations as Coq terms (C01Corr.v kobs)
+	unfrozen bool     // the connection was not in matching mode when the matcher ran
+}
+
+func (m *vSM) Match(cx *Connection) (bool, error) {
+	m.ran = true
+	if !cx.matching {
+		m.unfrozen = true
+	}
+	for _, op := range m.ops {
+		if op.peek {
+			var d []byte
+			panicked := false
+			func() {
+				defer func() {
+					if recover() != nil {
+						panicked = true
+					}
+				}()
+				d = cx.MatchingBytes()
+			}()
+			m.exec = append(m.exec, "MPeek")
+			m.obs = append(m.obs, fmt.Sprintf("KPk %s %s", cBool(panicked), vData(m.seq.stream, d)))
+			continue
+		}
+		p := make([]byte, op.n)
+		k, err := cx.Read(p)
+		m.exec = append(m.exec, fmt.Sprintf("MRead %d%%nat", op.n))
+		m.obs = append(m.obs, fmt.Sprintf("KRd %s %d", vData(m.seq.stream, p[:k]), vErrEnum(err)))
+		if err != nil {
+			return false, err
+		}
+	}
+	return m.verdict, nil
+}
+
+// configured tree
+type vMNode struct {
+	plain *vSM
+	not   [][]*vMNode // MatchNot: matcher sets
+}
+
+func vGenPlain(rng *vRng, s *vC01Seq, verdict bool) *vMNode {
+	sizes := []int{0, 1, 2, 4, 5, 16, 100, 1000, 2048, 4096, 5000}
+	m := &vSM{verdict: verdict, seq: s}
+	for k := 1 + rng.Intn(3); k > 0; k-- {
+		if rng.Intn(4) == 0 {
+			m.ops = append(m.ops, vSMOp{peek: true})
+		} else {
+			m.ops = append(m.ops, vSMOp{n: sizes[rng.Intn(len(sizes))]})
+		}
+	}
+	return &vMNode{plain: m}
+}
+
+func vGenSet(rng *vRng, s *vC01Seq, depth int) []*vMNode {
+	var set []*vMNode
+	if depth == 0 && rng.Intn(3) == 0 {
+		// the interesting order: a `not` whose inner matcher says no, followed by a reading matcher
+		inner := []*vMNode{vGenPlain(rng, s, false)}
+		return []*vMNode{{not: [][]*vMNode{inner}}, vGenPlain(rng, s, true), vGenPlain(rng, s, rng.Bool())}
+	}
+	for k := 1 + rng.Intn(3); k > 0; k-- {
+		if depth < 2 && rng.Intn(3) == 0 {
+			var sets [][]*vMNode
+			for j := 1 + rng.Intn(2); j > 0; j-- {
+				sets = append(sets, vGenSetInner(rng, s, depth+1))
+			}
+			set = append(set, &vMNode{not: sets})
+		} else {
+			set = append(set, vGenPlain(rng, s, rng.Intn(10) < 7))
+		}
+	}
+	return set
+}
+
+func vGenSetInner(rng *vRng, s *vC01Seq, depth int) []*vMNode {
+	var set []*vMNode
+	for k := 1 + rng.Intn(2); k > 0; k-- {
+		if depth < 2 && rng.Intn(5) == 0 {
+			set = append(set, &vMNode{not: [][]*vMNode{vGenSetInner(rng, s, depth+1)}})
+		} else {
+			set = append(set, vGenPlain(rng, s, rng.Intn(10) < 3)) // mostly "no", so that the `not` passes
+		}
+	}
+	return set
+}
+
+func vBuildSet(set []*vMNode) MatcherSet {
+	var ms MatcherSet
+	for _, n := range set {
+		if n.plain != nil {
+			ms = append(ms, n.plain)
+		} else {
+			mn := &MatchNot{}
+			for _, inner := range n.not {
+				mn.MatcherSets = append(mn.MatcherSets, vBuildSet(inner))
+			}
+			ms = append(ms, mn)
+		}
+	}
+	return ms
+}
+
+func vNodeRan(n *vMNode) bool {
+	if n.plain != nil {
+		return n.plain.ran
+	}
+	for _, set := range n.not {
+		for _, c := range set {
+			if vNodeRan(c) {
+				return true
+			}
+		}
+	}
+	return false
+}
+
+// the part of the configured tree that was executed, as a model/Conn.v mset term, and the
+// observations in execution order
+func vExecSet(set []*vMNode, obs *[]string, unfrozen *bool) string {
+	out := "MNil"
+	var parts []string
+	for _, n := range set {
+		if !vNodeRan(n) {
+			break
+		}
+		if n.plain != nil {
+			parts = append(parts, "(MPlain ["+strings.Join(n.plain.exec, "; ")+"])")
+			*obs = append(*obs, n.plain.obs...)
+			if n.plain.unfrozen {
+				*unfrozen = true
+			}
+		} else {
+			ss := "SNil"
+			var sp []string
+			for _, inner := range n.not {
+				ran := false
+				for _, c := range inner {
+					if vNodeRan(c) {
+						ran = true
+					}
+				}
+				if !ran {
+					break
+				}
+				sp = append(sp, vExecSet(inner, obs, unfrozen))
+			}
+			for i := len(sp) - 1; i >= 0; i-- {
+				ss = "(SCons " + sp[i] + " " + ss + ")"
+			}
+			parts = append(parts, "(MNot "+ss+")")
+		}
+	}
+	for i := len(parts) - 1; i >= 0; i-- {
+		out = "(MCons " + parts[i] + " " + out + ")"
+	}
+	return out
+}
+
+// one MatcherSet.Match on the connection, outside matching mode (as the router calls it)
+func (s *vC01Seq) opMatchSet(out *vOut, rng *vRng, idx int) {
+	set := vGenSet(rng, s, 0)
+	ms := vBuildSet(set)
+	pulled := s.sock.pos
+	sockReads := s.sock.reads
+	var before []byte
+	before = append(before, s.cx.buf[min(s.cx.offset, len(s.cx.buf)):]...)
+	matched, err := ms.Match(s.cx)
+	var obs []string
+	unfrozen := false
+	tree := vExecSet(set, &obs, &unfrozen)
+	s.step(fmt.Sprintf("KMatchSet %s [%s]", tree, strings.Join(obs, "; ")))
+	s.nMatchSet++
+	s.nMatchRead += len(obs)
+	prop := os.Getenv("VERIF_PROP")
+	if prop == "" {
+		prop = "C06"
+	}
+	in := map[string]any{"seq": idx, "step": len(s.steps), "set": tree, "matched": matched, "err": fmt.Sprint(err)}
+	if s.sock.reads != sockReads || s.sock.pos != pulled {
+		out.Fail(prop+":matcherset:network-read", fmt.Sprintf("MatcherSet.Match read from the network (%d socket reads, %d bytes pulled)", s.sock.reads-sockReads, s.sock.pos-pulled), in)
+		s.xfOK = false
+	}
+	if unfrozen {
+		out.Fail(prop+":matcherset:matcher-ran-unfrozen", "a matcher of the set was invoked while the connection was not in matching mode", in)
+		s.xfOK = false
+	}
+	after := s.cx.buf[min(s.cx.offset, len(s.cx.buf)):]
+	if s.cx.matching || !bytes.Equal(before, after) {
+		out.Fail(prop+":matcherset:stream-changed", "MatcherSet.Match changed what later matchers and handlers will read (buffered bytes before/after differ or matching mode left on)", in)
+		s.xfOK = false
+	}
+}
+
 type vC01Seq struct {
 	stream []byte
 	sock   *vScript
@@ -171,6 +380,7 @@ type vC01Seq struct {
 	xfOK       bool // no op so far broke the simple accounting (reads while matching do not consume)
 	nWrap      int
 	nMatchRead int
+	nMatchSet  int
 	maxBuf     int
 }
 
@@ -244,6 +454,10 @@ func vC01Run(out *vOut, rng *vRng, idx int, style int) {
 	nops := 10 + rng.Intn(50)
 	depth := 0 // freeze nesting as the router/not matcher would produce it
 	for i := 0; i < nops; i++ {
+		if depth == 0 && !s.cx.matching && rng.Intn(6) == 0 {
+			s.opMatchSet(out, rng, idx)
+			continue
+		}
 		r := rng.Intn(100)
 		if style == 1 && depth == 0 && r >= 20 && r < 45 {
 			r = 20 // bias towards prefetching first
@@ -423,7 +637,7 @@ func vC01Run(out *vOut, rng *vRng, idx int, style int) {
 		sc[i] = int64(k)
 	}
 	coq := fmt.Sprintf("CSeq %d %d %d %d %s [%s]", seed, L, pre, cap0, cZList(sc), strings.Join(s.steps, "; "))
-	cls := fmt.Sprintf("seg%d/wraps%d", segStyle, min(s.nWrap, 3))
+	cls := fmt.Sprintf("seg%d/wraps%d/msets%d", segStyle, min(s.nWrap, 3), min(s.nMatchSet, 3))
 	nt := s.maxBuf > 0 && s.nMatchRead > 0
 	out.Case(coq, cls, nt, map[string]any{"len": L, "pre": pre, "ops": len(s.steps), "wraps": s.nWrap, "max_buf": s.maxBuf})
 }
